@@ -232,12 +232,28 @@ class Threadless(ABC, Generic[T]):
         unfinished_work_ids = set()
         for task in self.unfinished:
             unfinished_work_ids.add(task._work_id)   # type: ignore
+        failed_work_ids: List[int] = []
         for work_id in self.works:
             # We don't want to invoke work objects which haven't
             # yet finished their previous task
             if work_id in unfinished_work_ids:
                 continue
-            await self._update_work_events(work_id)
+            try:
+                await self._update_work_events(work_id)
+            except Exception as e:
+                # A failing work must never take the worker down,
+                # e.g. get_events() of a work in a bad state or
+                # selector.modify() on a descriptor the kernel
+                # already forgot about (closed and re-opened by the work).
+                logger.exception(
+                    'Exception while updating events of work#{0}'.format(
+                        work_id,
+                    ),
+                    exc_info=e,
+                )
+                failed_work_ids.append(work_id)
+        for work_id in failed_work_ids:
+            self._cleanup(work_id)
         await self._update_conn_pool_events()
 
     async def _selected_events(self) -> Tuple[
@@ -313,7 +329,11 @@ class Threadless(ABC, Generic[T]):
                         fileno, work_id,
                     ),
                 )
-                self.selector.unregister(fileno)
+                try:
+                    self.selector.unregister(fileno)
+                except KeyError:
+                    # Selector already dropped it, e.g. after a failed modify()
+                    pass
             self.registered_events_by_work_ids[work_id].clear()
             del self.registered_events_by_work_ids[work_id]
         try:
